@@ -155,6 +155,18 @@ def from_builtin(args):
     return [ev]
 
 
+def from_suite(args):
+    """a package some test of the repository's own test-suite exported (recorded by the export hook, harness/suite.py)"""
+    src, raw = args
+    from ..hd import h
+    import vlsir.circuit_pb2 as vckt
+    pkg = vckt.Package()
+    pkg.ParseFromString(raw)
+    ev = {"src": src, "P": proj_package(pkg, None)}
+    ev.update(check_pkg(h, pkg))
+    return [ev]
+
+
 def _ex_worker(name):
     return from_example(name)
 
@@ -162,7 +174,7 @@ def _ex_worker(name):
 def run(tier, seed, replay_file=None):
     o = Outcome(PID, tier, seed)
     o.rule = ("packages: one per valid universe design (quick: seeded sample), every package exported by the seven examples' main() functions "
-              "(export hook), built-in generators over their parameter ranges; non-trivial = has at least one instance; distinct by content.")
+              "(export hook), every package exported while the repository's own test-suite runs (PDK-compiled designs included), built-in generators over their parameter ranges; non-trivial = has at least one instance; distinct by content.")
     o.trusted_base = ["harness/design.py projector (protobuf -> JSON)", "TLC", "vlsirtools netlisters and hdl21.from_proto as acceptance oracles (their verdict is logged, not interpreted)"]
     rnd = random.Random(seed)
     designs = universe.all_designs(tier, seed)
@@ -188,6 +200,16 @@ def run(tier, seed, replay_file=None):
         if err:
             ex_errors[name] = err
         o.cover["example_" + name] = len(out)
+    # every package the repository's own tests export (PDK-compiled designs included)
+    from .. import suite
+    sjobs = []
+    for r in suite.collect():
+        if r["rc"] not in (0, 5):
+            raise tlc.TlcError(f"test-suite under hooks did not pass: {r['file']}: {r['summary']}")
+        sjobs += [(f"suite:{r['file']}::{t.split('::')[-1]}", raw) for t, raw in r["pkgs"]]
+    for out in pool_map(from_suite, sjobs, chunksize=8):
+        evs += out
+    o.cover["suite_packages"] = len(sjobs)
     N = 6 if tier == "quick" else 16
     bjobs = [(k, n) for k in ("MosStack", "SeriesRes", "SeriesMod") for n in range(1, N + 1)] + [("CmDmGen", 0), ("Balun", 0), ("Wrapper", 0)]
     failed = []
@@ -223,9 +245,9 @@ def run(tier, seed, replay_file=None):
         ok, clause = verdicts[i]
         if not ok:
             o.violations.append(Violation(clause=clause.split(":")[0], case={"source": e["src"], "P": e["P"]},
-                                          features=["src_" + src, clause], detail=e.get("why")))
+                                          features=["src_" + src, clause] + (["source:" + e["src"]] if src == "suite" else []), detail=e.get("why")))
     o.distinct_nontrivial = len(seen)
-    o.required_cover = ["example_ro", "example_rdac", "example_encoder", "example_diff_ota", "example_idac", "example_bundles", "builtin", "src_U_sig", "src_U_bundle", "rebinding", "retry_after_failure_designs"]
+    o.required_cover = ["example_ro", "example_rdac", "example_encoder", "example_diff_ota", "example_idac", "example_bundles", "builtin", "src_U_sig", "src_U_bundle", "rebinding", "retry_after_failure_designs", "suite_packages"]
     for i in rnd.sample(range(len(evs)), 2):
         o.samples.append({"source": evs[i]["src"], "modules": evs[i]["P"]["order"], "verdict": verdicts[i]})
     return o
